@@ -175,13 +175,13 @@ theorem drainAll_sent (cfg : Cfg) : ∀ (l : List Nat) (st : State), sentOf (dra
 /-! ### the flush loops -/
 
 /-- `flushListener`'s loop pops a prefix of the queue; what it sends is (in order) a sub-list of that prefix, from this listener -/
-theorem flushLoopL_shape (lid : Nat) : ∀ (q : List Item) (as : List Ans),
-    ∃ popped, q = popped ++ (flushLoopL lid q as).1 ∧ (sentOf (flushLoopL lid q as).2).map (·.2) <+ popped ∧
-      ∀ x ∈ sentOf (flushLoopL lid q as).2, x.1 = .lst lid
+theorem flushLoopL_shape (lid : Nat) (v6 : Bool) : ∀ (q : List Item) (as : List Ans),
+    ∃ popped, q = popped ++ (flushLoopL lid v6 q as).1 ∧ (sentOf (flushLoopL lid v6 q as).2).map (·.2) <+ popped ∧
+      ∀ x ∈ sentOf (flushLoopL lid v6 q as).2, x.1 = .lst lid
   | [], _ => ⟨[], by simp [flushLoopL]⟩
   | it :: rest, as => by
     simp only [flushLoopL]
-    obtain ⟨pp, h1, h2, h3⟩ := flushLoopL_shape lid rest (nextAns as).2
+    obtain ⟨pp, h1, h2, h3⟩ := flushLoopL_shape lid v6 rest (nextAns as).2
     split
     · refine ⟨it :: pp, by simp only [List.cons_append]; rw [← h1], ?_, ?_⟩
       · simp only [sentOf, List.map_cons]; exact List.Sublist.cons_cons _ h2
@@ -195,13 +195,13 @@ theorem flushLoopL_shape (lid : Nat) : ∀ (q : List Item) (as : List Ans),
       · simp only [sentOf]; exact List.Sublist.cons _ h2
       · intro x hx; simp only [sentOf] at hx; exact h3 x hx
 
-theorem flushLoopC_shape (sid : Nat) : ∀ (q : List Item) (as : List Ans),
-    ∃ popped, q = popped ++ (flushLoopC sid q as).1 ∧ (sentOf (flushLoopC sid q as).2.1).map (·.2) <+ popped ∧
-      ∀ x ∈ sentOf (flushLoopC sid q as).2.1, x.1 = .cli sid
+theorem flushLoopC_shape (sid : Nat) (v6 : Bool) : ∀ (q : List Item) (as : List Ans),
+    ∃ popped, q = popped ++ (flushLoopC sid v6 q as).1 ∧ (sentOf (flushLoopC sid v6 q as).2.1).map (·.2) <+ popped ∧
+      ∀ x ∈ sentOf (flushLoopC sid v6 q as).2.1, x.1 = .cli sid
   | [], _ => ⟨[], by simp [flushLoopC]⟩
   | it :: rest, as => by
     simp only [flushLoopC]
-    obtain ⟨pp, h1, h2, h3⟩ := flushLoopC_shape sid rest (nextAns as).2
+    obtain ⟨pp, h1, h2, h3⟩ := flushLoopC_shape sid v6 rest (nextAns as).2
     split
     · refine ⟨it :: pp, by simp only [List.cons_append]; rw [← h1], ?_, ?_⟩
       · simp only [sentOf, List.map_cons]; exact List.Sublist.cons_cons _ h2
@@ -417,7 +417,7 @@ theorem sendDo_effect (cfg : Cfg) (tok : Nat) (st : State) (sid : Nat) (p : Byte
     | client =>
       have hhome : homeOf sid s = .cli sid := by simp [homeOf, hr]
       dsimp only
-      cases kernelAns p ans with
+      cases kernelAns _ p ans with
       | ok =>
         refine Or.inr (Or.inl ⟨s, rfl, ?_, by simp [sentOf, hhome]⟩)
         exact qle_sess st sid _ st.peerIndex st.nextSid st.sessionsCurrent (by rw [hs]; exact Sublist.refl _)
@@ -448,7 +448,7 @@ theorem sendDo_effect (cfg : Cfg) (tok : Nat) (st : State) (sid : Nat) (p : Byte
       | none => exact Or.inl (hclose st _ (QLe.refl st))
       | some l =>
         dsimp only
-        cases kernelAns p ans with
+        cases kernelAns _ p ans with
         | ok =>
           refine Or.inr (Or.inl ⟨s, rfl, ?_, by simp [sentOf, hhome]⟩)
           exact qle_sess st sid _ st.peerIndex st.nextSid st.sessionsCurrent (by rw [hs]; exact Sublist.refl _)
@@ -504,29 +504,35 @@ theorem ginv_step (cfg : Cfg) (h : List In) (i : In) (g : GInv cfg h (pending (r
     exact g.quiet i (fun q => hq.pending q)
   generalize hst : (run cfg h).1 = st at *
   cases i with
-  | listen => exact quiet _ _ ⟨fun _ => Sublist.refl _, fun x => by
+  | listen v6 => exact quiet _ _ ⟨fun _ => Sublist.refl _, fun x => by
       simp only [step, lwqOf_upd]; split
       · exact nil_sublist _
       · exact Sublist.refl _⟩ rfl
   | recvFrom lid dgs =>
     simp only [step]; split
     · exact quiet _ _ (QLe.refl st) rfl
-    · exact quiet _ _ (recvMany_qle cfg lid dgs st).1 (recvMany_qle cfg lid dgs st).2
+    · split
+      · exact quiet _ _ (recvMany_qle cfg lid dgs st).1 (recvMany_qle cfg lid dgs st).2
+      · exact quiet _ _ (QLe.refl st) rfl
   | clientRecv sid dgs =>
     simp only [step]; split
     · exact quiet _ _ (QLe.refl st) rfl
     · split
       · exact quiet _ _ (QLe.refl st) rfl
-      · exact quiet _ _ (clientRecvMany_qle cfg sid dgs st).1 (clientRecvMany_qle cfg sid dgs st).2
-  | connect a =>
-    exact quiet _ _ (qle_sess st st.nextSid _ _ _ _ (nil_sublist _)) rfl
-  | via lid a =>
+      · split
+        · exact quiet _ _ (clientRecvMany_qle cfg sid dgs st).1 (clientRecvMany_qle cfg sid dgs st).2
+        · exact quiet _ _ (QLe.refl st) rfl
+  | connect a v6 =>
+    exact quiet _ _ (qle_sess st st.nextSid _ _ _ _ (by exact nil_sublist _)) rfl
+  | via lid a v6 =>
     simp only [step, viaDo]
     split
     · exact quiet _ _ ⟨fun _ => Sublist.refl _, fun _ => Sublist.refl _⟩ rfl
     · split
       · exact quiet _ _ ⟨fun _ => Sublist.refl _, fun _ => Sublist.refl _⟩ rfl
-      · exact quiet _ _ (qle_sess st st.nextSid _ _ _ _ (nil_sublist _)) rfl
+      · split
+        · exact quiet _ _ ⟨fun _ => Sublist.refl _, fun _ => Sublist.refl _⟩ rfl
+        · exact quiet _ _ (qle_sess st st.nextSid _ _ _ _ (by exact nil_sublist _)) rfl
   | close sid => exact quiet _ _ (closeNow_qle cfg st sid _) (closeNow_sent cfg st sid _)
   | advance ms => exact quiet _ _ ⟨fun _ => Sublist.refl _, fun _ => Sublist.refl _⟩ rfl
   | gc => exact quiet _ _ (closeAll_qle cfg _ _ st) (closeAll_sent cfg _ _ st)
@@ -547,8 +553,8 @@ theorem ginv_step (cfg : Cfg) (h : List In) (i : In) (g : GInv cfg h (pending (r
     | some l =>
       dsimp only
       split
-      · obtain ⟨popped, h1, h2, h3⟩ := flushLoopL_shape lid l.wq as
-        refine g.flush _ (.lst lid) popped (flushLoopL lid l.wq as).1 _ ?_ ?_ ?_ h2 h3
+      · obtain ⟨popped, h1, h2, h3⟩ := flushLoopL_shape lid l.v6 l.wq as
+        refine g.flush _ (.lst lid) popped (flushLoopL lid l.v6 l.wq as).1 _ ?_ ?_ ?_ h2 h3
         · rw [pending_lst_of st lid l hl]; exact h1
         · rw [pending_set_lst]; simp
         · intro q hq; rw [pending_set_lst]; simp [hq]
@@ -564,17 +570,17 @@ theorem ginv_step (cfg : Cfg) (h : List In) (i : In) (g : GInv cfg h (pending (r
       | client =>
         dsimp only
         split
-        · obtain ⟨popped, h1, h2, h3⟩ := flushLoopC_shape sid s.wq as
+        · obtain ⟨popped, h1, h2, h3⟩ := flushLoopC_shape sid s.v6 s.wq as
           split
           · rw [sentOf_append, closeNow_sent, List.append_nil]
-            refine g.flush _ (.cli sid) popped (flushLoopC sid s.wq as).1 _ ?_ ?_ ?_ h2 h3
+            refine g.flush _ (.cli sid) popped (flushLoopC sid s.v6 s.wq as).1 _ ?_ ?_ ?_ h2 h3
             · rw [pending_cli_of st sid s hs]; exact h1
             · refine ((closeNow_qle cfg _ sid _).pending _).trans ?_
               rw [pending_set_sess]; simp
             · intro q hq
               refine ((closeNow_qle cfg _ sid _).pending _).trans ?_
               rw [pending_set_sess]; simp [hq]
-          · refine g.flush _ (.cli sid) popped (flushLoopC sid s.wq as).1 _ ?_ ?_ ?_ h2 h3
+          · refine g.flush _ (.cli sid) popped (flushLoopC sid s.v6 s.wq as).1 _ ?_ ?_ ?_ h2 h3
             · rw [pending_cli_of st sid s hs]; exact h1
             · rw [pending_set_sess]; simp
             · intro q hq; rw [pending_set_sess]; simp [hq]
